@@ -104,6 +104,12 @@ def build_variant(work: Path, tag, files, fmt, variant, r):
             cwd.mkdir(parents=True)
             args = [str(root / n) for n in names]
             sb.build = root / "out" / "b" / "build"
+        elif kind == "builddir-symlink":
+            # the build directory is a symbolic link to a directory at another depth (a scratch disk): relative paths
+            # from the build directory must be computed from where it really is
+            real = root / "scratch" / "out" / "deep" / "build"
+            real.mkdir(parents=True)
+            os.symlink(real, root / "build")
         elif kind == "builddir-in-src":
             # the build directory inside one of the source directories: paths from the build directory to the sources
             # then differ in depth ("../x.svg" vs "../../src/y.svg")
@@ -223,10 +229,11 @@ def run(chk):
                          {"kind": "hashseed", "seed": 99}, {"kind": "topo", "n": 2}, {"kind": "topo", "n": 3},
                          {"kind": "base", "n": 2}]
         variants.append({"kind": "builddir-in-src"})
+        variants.append({"kind": "builddir-symlink"})
         jobs = [(f, v) for f in fmts for v in variants]
         if "untouchedsvg" not in fmts:
             # sources used as they are (paths, not build-local copies, reach the glyph map): the directory variants
-            jobs += [("untouchedsvg", v) for v in variants if v["kind"] in ("base", "cwd", "cwd-rel", "builddir-in-src", "argperm")]
+            jobs += [("untouchedsvg", v) for v in variants if v["kind"] in ("base", "cwd", "cwd-rel", "builddir-in-src", "builddir-symlink", "argperm")]
 
         def one(k_job):
             k, (f, v) = k_job
